@@ -38,13 +38,18 @@ try:
                 t.update(o)
         tables.append(t)
     bad = 0
+    missing = 0
     for r in range(runs):
-        vals = set(t.get(r) for t in tables)
-        if len(vals) != 1:
+        # A worker process ends after a violating run that left goroutines behind (known findings
+        # do that): the rest of its chunk is then absent from that repetition - not a divergence.
+        got = [t.get(r) for t in tables]
+        missing += sum(1 for g in got if g is None)
+        vals = set(g for g in got if g is not None)
+        if len(vals) > 1:
             bad += 1
             if bad <= 10:
                 print("DIVERGE run", r, vals)
-    print("determinism %s: %d runs x %d reps, %d divergent" % (world, runs, reps, bad))
+    print("determinism %s: %d runs x %d reps, %d divergent%s" % (world, runs, reps, bad, (" (%d results absent: worker ended after a violating run)" % missing) if missing else ""))
     sys.exit(1 if bad else 0)
 finally:
     shutil.rmtree(bdir, ignore_errors=True)
